@@ -151,6 +151,9 @@ func (g *Gen) expr(depth int) V {
 	case 2:
 		return V{T: "VExpr", S: "coalesce(?)", B: true, L: []V{g.listOf2()}}
 	case 3:
+		if g.r.Chance(1, 3) { // WithoutParentheses: a Valuer (also a slice-kinded one) is still one value
+			return V{T: "VExpr", S: "coalesce(?, ?)", B: true, L: []V{g.tags(), g.drv()}}
+		}
 		return V{T: "VExpr", S: "coalesce(?, ?)", L: []V{g.null(), g.scalar()}}
 	}
 	if depth > 0 {
@@ -158,6 +161,11 @@ func (g *Gen) expr(depth int) V {
 	}
 	return V{T: "VExpr", S: "length(?)", L: []V{g.str()}}
 }
+func (g *Gen) tags() V {
+	s := Sc{K: "str", S: g.fr.str() + "," + g.fr.str()}
+	return V{T: "VDrv", Sc: &s, Go: "tags"}
+}
+
 func (g *Gen) listOf2() V {
 	l := g.list(0, false)
 	for len(l.L) < 2 && l.Go != "[2]int64" {
@@ -260,7 +268,9 @@ func (g *Gen) atom(depth int) atom {
 		return atom{c + " " + op + " ?", []V{g.arg(depth)}}
 	case 4, 5:
 		var a V
-		switch g.r.Intn(8) {
+		switch g.r.Intn(9) {
+		case 8: // a slice-kinded driver.Valuer right after '(': bound as ONE value, never expanded
+			a = g.tags()
 		case 0:
 			if depth > 0 {
 				a = g.sub(depth, false)
@@ -686,7 +696,7 @@ func (g *Gen) condForm(depth int) (V, []V) {
 			// clause.NamedExpr given '?' arguments only (the scanner Joins uses)
 			c := g.col()
 			if g.r.Chance(1, 3) {
-				return V{T: "VNamedExpr", S: c + " IN (?) OR " + c + " = (?)", L: []V{g.drv(), lib.Pick(g.r, []V{g.scalar(), g.bytes()})}}, nil
+				return V{T: "VNamedExpr", S: c + " IN (?) OR " + c + " = (?)", L: []V{lib.Pick(g.r, []V{g.drv(), g.tags()}), lib.Pick(g.r, []V{g.scalar(), g.bytes()})}}, nil
 			}
 			return V{T: "VNamedExpr", S: c + " IN (?) OR " + c + " NOT IN (?)", L: []V{g.list(0, true), g.list(0, true)}}, nil
 		}
@@ -993,7 +1003,7 @@ func (g *Gen) rawFin() Fin {
 			args[1] = g.list(0, true)
 		}
 		if strings.Contains(t.tmpl, "IN (?)") {
-			args[t.n-1] = g.list(0, true)
+			args[t.n-1] = lib.Pick(g.r, []V{g.list(0, true), g.list(0, true), g.tags()})
 			if strings.HasPrefix(t.tmpl, "DELETE") {
 				args[0], args[1] = g.list(0, true), g.scalar()
 			}
